@@ -172,6 +172,9 @@ def run_py(case):
                 if '"big"' in json.dumps(c.get("args")):
                     feats["py_big_index"] = True      # an int64 value at or beyond the int32 index range
                 feats["py_entry"] = fam + "." + [p for p in c["path"] if isinstance(p, str)][-1]
+                feats["py_target"] = c["target"]
+                if c.get("fresh"):
+                    feats["py_fresh"] = c["fresh"]       # shape of a call that carries a fresh label (c20_py.fresh_call)
     if vg_notes:
         fails.append("valgrind reports memory errors in dimod frames: " + json.dumps(vg_notes)[:1500])
         feats["py_valgrind"] = True
